@@ -156,6 +156,47 @@ pub fn digest_of_baseline(b: &[[u64; N_FUNCS]]) -> u64 {
     hash64(&bytes)
 }
 
+/// run `f` in a forked child with a 1.5 GiB address-space cap and a wall-clock limit; Some(exit code) if the
+/// child exited by itself, None if it died or had to be killed
+fn in_child(limit_s: u64, f: impl FnOnce() -> i32) -> Option<i32> {
+    unsafe {
+        let pid = libc::fork();
+        if pid < 0 {
+            return None;
+        }
+        if pid == 0 {
+            let lim = libc::rlimit {
+                rlim_cur: 3 << 29,
+                rlim_max: 3 << 29,
+            };
+            libc::setrlimit(libc::RLIMIT_AS, &lim);
+            libc::signal(libc::SIGABRT, libc::SIG_DFL);
+            let code = match std::panic::catch_unwind(std::panic::AssertUnwindSafe(f)) {
+                Ok(c) => c,
+                Err(_) => 99,
+            };
+            libc::_exit(code);
+        }
+        let t0 = Instant::now();
+        loop {
+            let mut st: libc::c_int = 0;
+            let r = libc::waitpid(pid, &mut st, libc::WNOHANG);
+            if r == pid {
+                return if libc::WIFEXITED(st) { Some(libc::WEXITSTATUS(st)) } else { None };
+            }
+            if r < 0 {
+                return None;
+            }
+            if t0.elapsed().as_secs() >= limit_s {
+                libc::kill(pid, libc::SIGKILL);
+                libc::waitpid(pid, &mut st, 0);
+                return None;
+            }
+            std::thread::sleep(std::time::Duration::from_millis(5));
+        }
+    }
+}
+
 struct CallLog {
     thread: usize,
     start_ns: u64,
@@ -280,6 +321,83 @@ impl C14 {
         }
         for (i, row) in base.iter().enumerate() {
             ctx.nontrivial(row.iter().fold(i as u64, |a, b| a.rotate_left(5) ^ b));
+        }
+        // (a') the same calls in the opposite order on a fresh thread: a result may depend on nothing but the
+        // arguments, in particular not on what was called before (successfully or not) on this thread
+        {
+            let inputs2 = inputs.clone();
+            let rev = std::thread::spawn(move || {
+                let mut rows = vec![[0u64; N_FUNCS]; inputs2.len()];
+                for i in (0..inputs2.len()).rev() {
+                    for f in (0..N_FUNCS).rev() {
+                        rows[i][f] = eval(f, &inputs2[i]);
+                    }
+                }
+                rows
+            })
+            .join()
+            .unwrap_or_default();
+            ctx.count_n("evaluations", (inputs.len() * N_FUNCS) as u64);
+            for (i, (x, y)) in base.iter().zip(rev.iter()).enumerate() {
+                for f in 0..N_FUNCS {
+                    if x[f] != y[f] {
+                        bad = true;
+                        ctx.violation(
+                            "history_dependence",
+                            &format!("history_dependence|{}", FUNC_NAMES[f]),
+                            &format!(
+                                "{} returned a different result when the same calls were made in the opposite order on a fresh thread (the result depends on earlier calls) on {}",
+                                FUNC_NAMES[f], inputs[i].what
+                            ),
+                            json!({"function": FUNC_NAMES[f], "input": inputs[i].what}),
+                            &inputs[i].stream,
+                        );
+                    }
+                }
+            }
+        }
+        // (a'') a call that FAILS must not influence later calls either. Reconstruction from invalid arguments
+        // is not safe to run in this process (on the unchanged tree it usually allocates without bound), so
+        // the sequence "failing call, then valid calls" runs in a forked child under a small memory cap; a
+        // child that dies or hangs is no verdict, a child that survives compares with the baseline
+        for (i, inp) in inputs.iter().enumerate().take(6) {
+            if inp.plain.len() < 60 || base[i][2] == 0 {
+                continue;
+            }
+            let mut damaged = inp.plain.clone();
+            let from = damaged.len() * 2 / 3;
+            let at = from + (i * 7919) % (damaged.len() - from);
+            damaged[at] ^= 0x5a;
+            let verdict = in_child(20, || {
+                let _ = cur::reconstruct(&damaged, &inp.corr);
+                let mut diff = 0;
+                for f in [2usize, 4, 1] {
+                    if eval(f, inp) != base[i][f] {
+                        diff = f as i32 + 10;
+                        break;
+                    }
+                }
+                diff
+            });
+            ctx.count_n("evaluations", 4);
+            match verdict {
+                Some(0) => ctx.count("after_failed_call:same_results"),
+                Some(code) if code >= 10 => {
+                    bad = true;
+                    let f = (code - 10) as usize;
+                    ctx.violation(
+                        "failed_call_influences_later_call",
+                        &format!("failed_call_influences_later_call|{}", FUNC_NAMES[f.min(N_FUNCS - 1)]),
+                        &format!(
+                            "after a reconstruction call that failed (plaintext damaged at offset {}), {} returned a different result for unchanged arguments on {}",
+                            at, FUNC_NAMES[f.min(N_FUNCS - 1)], inp.what
+                        ),
+                        json!({"function": FUNC_NAMES[f.min(N_FUNCS - 1)], "input": inp.what, "damaged_at": at}),
+                        &inp.stream,
+                    );
+                }
+                _ => ctx.count("after_failed_call:child_died_or_hung(no verdict)"),
+            }
         }
         // (b) three concurrent phases
         let mut r = Rng::derive(self.seed, 0x1402, k, 0);
